@@ -239,8 +239,9 @@ def oracle(case, op, res, mem, structs, chip=None):
             bad.append(("memory-changed", "a refused call changed the machine's memory"))
         return bad
     if outcome[0] != "ok":
-        if outcome[0] == "exc" and outcome[1] == "TimeoutError" and case.get("plan"):
-            pass            # every transmission of one command failed: the documented way to give up
+        if outcome[0] == "exc" and outcome[1] == "TimeoutError" and case.get("plan") \
+                and res.get("max_tx", 0) >= case.get("n_tries", 5):
+            pass            # one command was transmitted n_tries times in vain: the documented way to give up
         elif outcome[0] == "exc" and outcome[1] == "ValueError" and "memoryview assignment" in outcome[2] \
                 and buffer + 14 > pow2ceil(buffer + 8):
             bad.append(("recv-length-truncates-reply",
@@ -733,6 +734,55 @@ def gen_history(rng, structs, faulted=False):
     return c
 
 
+def gen_bigbuffer(rng, B):
+    """machines advertising more than the usual 256 bytes, the size reaching the library through its own sver
+    query (not preset): transfers of two and more full chunks"""
+    n = rng.choice([2 * B, 2 * B + 5, 3 * B - 1, B + 1, B])
+    base = rand_base(rng, n + 4) + rng.choice([0, 0, 1, 2])
+    p = rng.choice([0, 1, 17])
+    ops = [["write", p, base, ["pat", rng.randrange(1000), n]], ["read", p, base - min(base, 3), n + 6]]
+    if rng.random() < 0.5:
+        ops.reverse()
+    return base_case(rng, B, rng.choice([1, 2, 8]), ops, tag="bigbuffer", preset=False)
+
+
+P2P_TABLE = 0xe1010000          # router P2P table: 8 three-bit entries per word, column x at + 128 x; 6 = no route
+BOARDS_12x12 = [[0, 0, 1], [4, 8, 2], [8, 4, 3]]      # Ethernet chips of the three SpiNN-5 boards of a 12 x 12 torus
+
+
+def gen_discover(rng, structs):
+    """a three-board machine: the controller first discovers the other boards' Ethernet connections
+    (discover_connections: P2P table, chip info, one new connection per board), then reads and writes on chips of
+    all boards, most runs under a fault plan that starts after the discovery"""
+    B = rng.choice([16, 24, 256])
+    pairs = [[structs["sv"][0] + structs["sv"][2]["p2p_dims"][0] + i, b] for i, b in enumerate([12, 12])]
+    for col in range(12):
+        for w in range(2):
+            word = 0
+            for e in range(8):
+                row = 8 * w + e
+                word |= (rng.randrange(6) if row < 12 else 6) << (3 * e)
+            pairs += [[P2P_TABLE + 128 * col + 4 * w + i, b] for i, b in enumerate(bytearray(le_bytes(word, 4)))]
+    spots = [[5, 9], [4, 8], [6, 10], [7, 11], [9, 5], [8, 4], [10, 6], [11, 7], [1, 1], [0, 0], [2, 3]]
+    nops = rng.choice([2, 3, 4])
+    ops, where = [], []
+    for i in range(nops):
+        xy = rng.choice(spots[:8]) if i == 0 or rng.random() < 0.7 else rng.choice(spots)
+        n = rng.choice([rng.randint(1, 3 * B + 5), 2 * B, B + 1])
+        a = rand_base(rng, n + 4) + rng.randrange(4)
+        p = rng.choice([0, 1, 17])
+        ops.append(rng.choice([["read", p, a, n], ["write", p, a, ["pat", rng.randrange(1000), n]]]))
+        where.append(xy)
+    c = base_case(rng, B, rng.choice([1, 2, 8]), ops, tag="discover", dims=[12, 12], preset=rng.random() < 0.5,
+                  n_tries=8, timeout=2, discover=True, eth=BOARDS_12x12)
+    c["over"] = [[0, 0, pairs]]
+    c["chips"], c["chip"] = where, where[0]
+    if rng.random() < 0.8:
+        mood = rng.choice(["lossy", "lossy", "dup", "busy"])
+        c["plan"] = dict((str(k), gen_outcome(rng, 2, mood)) for k in range(12 * nops * (3 + (3 * B + 5) // B)))
+    return c
+
+
 def gen_malformed(rng):
     B = rng.choice([4, 16, 256])
     pool = [
@@ -807,6 +857,8 @@ def run(chk, args):
                              [4, 5, 6, 7, 8, 9, 12, 16, 18, 24, 56, 120, 243, 248, 255, 256, 300])
         singles += [gen_faulted(rng, structs, [4, 5, 8, 16, 24]) for _ in range(260 if quick else 3000)]
         singles += [gen_history(rng, structs, faulted=(i % 4 == 3)) for i in range(240 if quick else 3000)]
+        singles += [gen_bigbuffer(rng, B) for B in [999, 1000, 1024, 2000] for _ in range(4 if quick else 40)]
+        singles += [gen_discover(rng, structs) for _ in range(160 if quick else 2000)]
         singles += [gen_malformed(rng) for _ in range(40 if quick else 200)]
         singles += [gen_nonterm(rng) for _ in range(3)]
         if not quick:
@@ -858,6 +910,11 @@ def run(chk, args):
                           c["kind"] == "valid" and nontrivial(c, res))
             if c["kind"] != "valid":
                 continue
+            if c.get("discover"):
+                chk.count("discovered-connections:%s" % (res[0]["discovered"] or {}).get("found"))
+                if (res[0]["discovered"] or {}).get("found") != len(c["eth"]):     # the boot board is found again as (0, 0)
+                    chk.oblige("environment:discovery", False, "discover_connections found %r on the simulated "
+                               "three-board machine" % (res[0]["discovered"],))
             mem = Mem(c)
             for i, (op, r) in enumerate(zip(c["ops"], res)):
                 chk.count("outcome:" + (r["outcome"][0] if r["outcome"][0] != "exc" else r["outcome"][1]))
@@ -953,7 +1010,11 @@ def run(chk, args):
         "branches); link reads/writes (lengths 0..3*word+8); random faulted runs (request lost, reply lost, delayed, "
         "duplicated, retryable return codes; 1-3 calls per run); a malformed stream (out-of-range arguments, unknown "
         "fields, misaligned link accesses: outcome class only); histories: one controller object used for 3-6 calls on 2-4 "
-        "chips whose sv.vcpu_base differ (per-core fields, struct fields, reads, writes interleaved; every 4th faulted); buffer sizes < 4 for the link functions (non-termination). "
+        "chips whose sv.vcpu_base differ (per-core fields, struct fields, reads, writes interleaved; every 4th faulted); buffer sizes < 4 for the link functions (non-termination); "
+        "buffer sizes 999, 1000, 1024, 2000 learnt through the controller's own sver query with transfers of >= 2 full "
+        "chunks; a simulated three-board machine (one fake socket per connection) on which the controller first runs "
+        "discover_connections() and then reads / writes chips of every board under fault plans (a TimeoutError is accepted "
+        "only when one datagram really was transmitted n_tries times). "
         "Non-trivial = valid case with >= 2 commands, or a non-word command, or a fill/link command, or a faulted run; "
         "distinct by hash of (buffer, window, initial memory, chip, calls, fault plan)")
 
